@@ -535,6 +535,10 @@ def flag_search(body, starts, init=None, stop=(), cut_edges=(), call_results=Non
                                 nv = ("W", v[q["l"]])        # a plain-enum value (tuple of variant indices) or a ("V", ..) value
                             elif q is not None and not q["p"] and q["l"] in btl:
                                 nv = ("W", ("B", tuple(v.get((q["l"], i_)) for i_ in range(btl[q["l"]]))))
+                            else:
+                                bv = _op_bool(rv["ops"][0], v)      # `Ok(false)` / `Some(flag)`: a plain bool payload
+                                if isinstance(bv, bool):
+                                    nv = ("W", ("b", bv))
                     else:
                         nv = ("X",)
                 elif rv["k"] == "use":
@@ -738,6 +742,8 @@ def _op_bool(op, v):
         if isinstance(cv, tuple) and cv and cv[0] == "V" and p["p"][0].get("i") == cv[1] and p["p"][1]["f"] < len(cv[2]):
             x = cv[2][p["p"][1]["f"]]
             return x if isinstance(x, bool) else None
+        if isinstance(cv, tuple) and len(cv) == 2 and cv[0] == "W" and isinstance(cv[1], tuple) and len(cv[1]) == 2 and cv[1][0] == "b" and p["p"][1]["f"] == 0:
+            return cv[1][1]                 # `(r as Continue).0` of a carrier known to hold a plain bool
     return None
 
 
